@@ -862,6 +862,14 @@ Proof.
   - split; [|exact Hi]. eapply Pre_frame; [| | | | | |exact HP]; reflexivity.
 Qed.
 
+Lemma loop_read_n_N : forall l s, Pre true s -> incb s = false ->
+  let s' := fst (loop_read_n c nested l s) in Pre true s' /\ incb s' = false.
+Proof.
+  induction l as [|i r IH]; intros s HP Hi; cbn [loop_read_n]; [cbn [fst]; auto|].
+  destruct (loop_read_N i s HP Hi) as (A1 & A2).
+  destruct (read_continues c nested i s); [apply IH; assumption|auto].
+Qed.
+
 Lemma check_keepalive_N m s : Pre true s -> incb s = false ->
   let s' := check_keepalive c nested m s in Pre true s' /\ incb s' = false.
 Proof.
@@ -928,7 +936,7 @@ Let Hc := fun sc s id A B D => nested_at_C c k0 d sc s id A B D.
 Lemma run_top_N t s : Pre k0 true s -> incb s = false ->
   let s' := run_top c nst t s in Pre k0 true s' /\ incb s' = false.
 Proof.
-  intros HP Hi. destruct t as [ok|ok| | | |i| |m]; cbn [run_top].
+  intros HP Hi. destruct t as [ok|ok| | | |i| |m|l]; cbn [run_top].
   - destruct (api_connect_N c k0 nst Hn Hq Ht Hc ok s HP) as (A1 & A2).
     destruct (api_connect c nst ok s) as [s1 [rc|]]; cbn [ret_of fst] in *; (split; [|ssimpl; congruence]);
       [apply Pre_emit; [reflexivity|exact A1]|exact A1].
@@ -957,6 +965,10 @@ Proof.
       [apply Pre_emit; [reflexivity|exact HP]|exact Hi|].
     destruct (loop_misc c nst m (emit (Call CLoopMisc) s)) as [s1 rc]. cbn [fst] in *. split; [|ssimpl; congruence].
     apply Pre_emit; [reflexivity|exact A1].
+  - destruct (loop_read_n_N c k0 nst Hn Hq Ht Hc l (emit (Call CLoopRead) s)) as (A1 & A2);
+      [apply Pre_emit; [reflexivity|exact HP]|exact Hi|].
+    destruct (loop_read_n c nst l (emit (Call CLoopRead) s)) as [s1 [rc|]]; cbn [ret_of fst] in *; (split; [|ssimpl; congruence]);
+      [apply Pre_emit; [reflexivity|exact A1]|exact A1].
 Qed.
 End Top.
 
